@@ -364,15 +364,22 @@ class Exec:
             if mode == "list" and all(z3.is_true(c) for c, _ in vals):
                 return PyTup([v for _, v in vals], True)
             raise Unsupported("comprehension over literal with filter")
+        view = None
+        if isinstance(it, DictItems):
+            view = it.mode
+            it = it.d
         if not isinstance(it.ty, (ListT, SeqT, DictT)) and it.ty is not STR:
             raise Unsupported("comprehension over %s" % it.ty)
         # free variables: every V in env whose name occurs in the comprehension
-        names = sorted({n.id for n in ast.walk(comp) if isinstance(n, ast.Name)} & set(st.env))
+        used = set()
+        for part in [comp.elt] + list(g.ifs):
+            used |= {n.id for n in ast.walk(part) if isinstance(n, ast.Name)}
+        names = sorted(used & set(st.env))
         tnames = {n.id for n in ast.walk(g.target) if isinstance(n, ast.Name)}
         free = [(n, st.env[n]) for n in names if n not in tnames and isinstance(st.env[n], V) and st.env[n].ty is not NONE]
         import hashlib as _h
-        sig = "%s|%s|%s|%s|%s|%s" % (mode, ast.unparse(comp.elt), ast.unparse(g.target), [ast.unparse(c) for c in g.ifs],
-                                     it.ty.name, [(n, v.ty.name) for n, v in free])
+        sig = "%s|%s|%s|%s|%s|%s|%s" % (mode, ast.unparse(comp.elt), ast.unparse(g.target), [ast.unparse(c) for c in g.ifs],
+                                        it.ty.name, [(n, v.ty.name) for n, v in free], view)
         fname = "comp_" + _h.md5(sig.encode()).hexdigest()[:10]
         if fname in _comp_cache:
             f, rty = _comp_cache[fname]
@@ -382,7 +389,10 @@ class Exec:
         for n, v in st.env.items():
             if n not in sub.env and not isinstance(v, V):
                 sub.env[n] = v
-        nonempty, hd, tl = head_tail(V(it.ty, params[0]))
+        pv = V(it.ty, params[0])
+        nonempty, hd, tl = iter_head_tail(DictItems(pv, view) if view else pv)
+        if isinstance(tl, DictItems):
+            tl = tl.d
         self.bind_target(g.target, hd, sub)
         old_spec = self.ctx.spec_mode
         self.ctx.spec_mode = True
@@ -408,9 +418,15 @@ class Exec:
                 _comp_cache[fname] = (f, INT)
                 return V(INT, f(*([it.t] + [v.t for _, v in free])))
             if mode == "list":
-                rty = self.ctx.contract.comp_types.get(comp.lineno) if hasattr(self.ctx.contract, "comp_types") else None
+                ct = getattr(self.ctx.contract, "comp_types", None) or {}
+                rty = ct.get(getattr(comp, "_comp_no", None)) or ct.get("*")
                 if rty is None:
-                    raise Unsupported("list comprehension at line %d needs a declared type (comp_types)" % comp.lineno)
+                    rty = getattr(self, "ret_ty", None) if isinstance(getattr(self, "ret_ty", None), (SeqT, ListT)) else None
+                if rty is None and isinstance(elt, V) and not isinstance(elt.ty, (ListT, DictT)):
+                    rty = SeqT(elt.ty)
+                if rty is None:
+                    raise Unsupported("list comprehension #%s at line %d needs a declared type (comp_types)"
+                                      % (getattr(comp, "_comp_no", "?"), comp.lineno))
                 f = rec_function(fname, *([p.sort() for p in params] + [rty.sort()]))
                 rec = f(*([tl.t] + params[1:]))
                 e = coerce(elt, rty.elem).t
@@ -541,6 +557,8 @@ class Exec:
         args, kwargs = self.eval_args(node, st)
         if name in ("append", "extend", "pop", "insert", "sort", "clear", "update", "add", "setdefault", "remove"):
             self.check_mutation(recv_node, st)
+            for a in node.args:
+                self.note_escape(a, st)
         if isinstance(recv, PyTup) and recv.is_list and name == "append":
             self.assign_to(recv_node, PyTup(recv.items + [args[0]], True), st)
             return NONE_V
@@ -672,6 +690,14 @@ class Exec:
                 al.add(target.id)
             st.env["__aliased__"] = frozenset(al)
 
+    def note_escape(self, node, st):
+        """a mutable value stored into a container (append / item store / yield) is shared from now on: later
+        in-place mutation through the source name would be visible through the container"""
+        if isinstance(node, ast.Name):
+            v = st.env.get(node.id)
+            if isinstance(v, V) and v.ty.mutable:
+                st.env["__aliased__"] = frozenset(set(st.env.get("__aliased__", ())) | {node.id})
+
     def check_mutation(self, target, st):
         n = target
         while isinstance(n, (ast.Subscript, ast.Attribute)):
@@ -694,6 +720,8 @@ class Exec:
             if decl is not None:
                 val = coerce(val, decl)
             st.env[target.id] = lift(val)
+            if target.id in st.env.get("__aliased__", ()):
+                st.env["__aliased__"] = frozenset(set(st.env["__aliased__"]) - {target.id})
             return
         if isinstance(target, (ast.Tuple, ast.List)):
             self.bind_target(target, val, st)
@@ -701,6 +729,9 @@ class Exec:
         if isinstance(target, ast.Subscript):
             base = lift(self.ev(target.value, st))
             line = target.lineno
+            vn = getattr(self, "_store_value_node", None)
+            if vn is not None:
+                self.note_escape(vn, st)
             if isinstance(target.slice, ast.Slice):
                 raise Unsupported("slice assignment")
             if isinstance(base, V) and isinstance(base.ty, RecT):
@@ -836,7 +867,7 @@ def _b_all_any(mode):
         if isinstance(v, V) and isinstance(v.ty, SeqT) and v.ty.elem is BOOL:
             f = seq_bool_fold(mode)
             return V(BOOL, f(v.t))
-        if isinstance(v, V) and isinstance(v.ty, ListT):
+        if isinstance(v, V) and isinstance(v.ty, (ListT, SeqT)):
             # all(xs) over a list of truthy-able elements
             fake = ast.GeneratorExp(elt=ast.Name(id="__x", ctx=ast.Load()),
                                     generators=[ast.comprehension(target=ast.Name(id="__x", ctx=ast.Store()),
